@@ -8,14 +8,15 @@ RULE = ("datagram sequences (length <= 40) over the alphabet {valid broadcast of
         "model, undecodable name} sent over loopback UDP to a RUNNING bridge with 1..4 ports, cross-port interleavings, callbacks "
         "that raise on chosen invocations; a sentinel broadcast per datagram is the delivery barrier (no sleeps); the observed "
         "callback invocations (port, device) in order must equal the model's delivery list; non-trivial = distinct (alphabet word, "
-        "ports, failure pattern)")
+        "ports, failure pattern); one stream runs the bridge constructed without a port list, i.e. on the protocol's well-known "
+        "ports, with every family on every port")
 ASSUMPTIONS = ["PARTIAL: UDP ordering/loss on loopback and asyncio's isolation of exceptions raised in datagram_received are "
                "runtime facts the model assumes (`loopIsolates`); they are exercised here, not proved",
                "one datagram in flight per step, so arrival order is the send order"]
 
 
 def _impl(a):
-    return BH.run_bridge_sequence(a["ports"], [(p, h) for p, h, _ in a["arrivals"]], fail_on=a["fail_on"])
+    return BH.run_bridge_sequence(a["ports"], [(p, h) for p, h, _ in a["arrivals"]], fail_on=a["fail_on"], wellknown=a.get("wellknown", False))
 
 
 def _model(a):
@@ -24,6 +25,8 @@ def _model(a):
 
 def _judge(a, out):
     """Spec: exactly the datagrams that the Spec encoder produced (kind 'valid') are delivered, in order."""
+    if "NOT-RUN" in out:
+        return []                   # the bridge had already stopped delivering in earlier sequences: nothing observed, nothing judged
     n_valid = sum(1 for _, _, k in a["arrivals"] if k.startswith("valid"))
     n_out = 0 if out == "-" else len(out.split(" | "))
     lines = []
@@ -39,6 +42,7 @@ def _judge(a, out):
 
 
 def _shrink(a):
+    BH.GIVE_UP_AFTER = 10 ** 9      # while minimising a failure every candidate is really run
     arr = a["arrivals"]
     for i in range(len(arr)):
         yield dict(a, arrivals=arr[:i] + arr[i + 1:])
@@ -47,8 +51,8 @@ def _shrink(a):
 
 
 SEQ = C.Kind("bridge-sequence", impl=_impl, model=_model, judge=_judge,
-             classify=lambda a, o: f"ports{a['ports']}:len{len(a['arrivals']) // 10 * 10}:fails{min(len(a['fail_on']), 3)}",
-             nontrivial=lambda a, o: (a["ports"], tuple(k.split("|")[0] for _, _, k in a["arrivals"]), tuple(a["fail_on"])),
+             classify=lambda a, o: f"{'wellknown-' if a.get('wellknown') else ''}ports{a['ports']}:len{len(a['arrivals']) // 10 * 10}:fails{min(len(a['fail_on']), 3)}",
+             nontrivial=lambda a, o: (a["ports"], a.get("wellknown", False), tuple((p, k.split("|")[0]) for p, _, k in a["arrivals"]), tuple(a["fail_on"])),
              shrink=_shrink)
 KINDS = {"bridge-sequence": SEQ}
 
@@ -86,10 +90,29 @@ def gen_sequence(rng, pool):
     return {"ports": ports, "arrivals": arr, "fail_on": fail_on}
 
 
+def wellknown_sequences(rng, pool, n):
+    """a bridge constructed WITHOUT a port list, i.e. on the protocol's well-known broadcast ports: every family on every port
+    (the bridge does not care which device talks on which port), plus ordinary mixed sequences"""
+    fams = sorted({v["family"] for v in pool})
+    every = [(p, v["dgram"], f"valid|{v['family']} {v['fields']}") for f in fams for p in range(4)
+             for v in [next(x for x in pool if x["family"] == f)]]
+    out = [{"ports": 4, "arrivals": every, "fail_on": [], "wellknown": True}]
+    while len(out) < n:
+        s = gen_sequence(rng, pool)
+        if s["ports"] == 4:
+            out.append(dict(s, wellknown=True))
+    return out
+
+
 def streams(ctx):
     rng = ctx.rng
     c05._sync_types()
     pool = B.encode_all([B.gen_device(rng) for _ in range(60)])
+    wk = BH.default_ports()
+    if len(wk) == 4 and all(BH.bindable(p) for p in wk):
+        ctx.run_cases(SEQ, "bridge-on-the-well-known-ports", wellknown_sequences(rng, pool, ctx.n(12, 120)), exhaustive=False, sample_every=5)
+    else:
+        ctx.notes.append(f"well-known broadcast ports {wk} are not all free in this sandbox: that stream was skipped")
     ctx.run_cases(SEQ, "sequences-on-a-running-bridge", [gen_sequence(rng, pool) for _ in range(ctx.n(150, 3000))], exhaustive=False,
                   sample_every=70)
 
